@@ -256,6 +256,24 @@ PROPS = {
         rule="case i: feature level i mod 4 (Next only / +Alt / +slices / +maps); graph = per node random Next, Alt, Kids, ByName targets (nil with p=1/3); distinct by graph descriptor; non-trivial = more than one node",
         trusted_base=COMMON_TB + ["github.com/kstenerud/go-duplicates FindDuplicatePointers is modelled (findDups) and tied by GRAPH.EMIT"],
     ),
+    "C02": dict(
+        claim="theorem escape_roundtrip / encoder_strings_roundtrip: for EVERY string (any code points) the escaping layer of the CTE encoder (escapeCharQuoted / unicodeEscape / WriteQuotedString: safe characters verbatim, otherwise a named escape or \\[hex]) followed by the reference semantics of string literals (CE/Cte/Lit.lean strValue, the reading the C24 check holds the decoder to) is the identity; the only facts needed from the safety table - it lets neither the quote nor the backslash through - are proved for the table extracted from internal/chars on this run (safe_table_ok; GenCheck stringlikeSafe_eq). "
+              "Harness: generated rules-valid streams with every event kind (comments at every allowed position, markers, all time / time-zone forms incl. latitude/longitude, all numeric forms and edge values, custom text) plus documents of strings, resource ids, remote references, custom texts and comments built from control characters, separators, unassigned / private-use / non-character code points, delimiters and escapes: real CTE encoder with rules -> real CTE decoder with rules; the Lean definition of 'carries the same data' for text formats (canonText: comments kept with text, padding dropped, NaN array elements by kind, numbers by value) judges the result (CANON.EQ); the escape model is compared with the encoder string by string (CTE.ESCAPE)",
+        note="partial: only the string-escaping layer is a theorem; numbers, times, the pretty-printer's decorator stack and the ANTLR reader are decided by the oracle (the printer/reader are not modelled beyond strings, array elements [C25], literals [C24] and the array engine [C23]). Defects found by this check and repaired: comment contents (533bdc4), negative zero big decimals (d1442ba)",
+        level="proof", n_quick=10000, n_thorough=500000, shards=16,
+        lean_modules=["CE.Props.C02", "CE.Cte.Digits", "CE.Gen.Check"],
+        rule="4 of 5 cases: grammar-directed rules-valid streams (every fifth marker-heavy); 1 of 5: a list of 1-5 text-bearing events over a pool of 58 stress code points; streams the validator rejects are skipped and counted; distinct by event text",
+        trusted_base=COMMON_TB + ["CE/Canon.lean canonText is the reading of 'equivalent stream carrying the same data'"],
+    ),
+    "C03": dict(
+        claim="the gap between what the validator lets through and what the text grammar can spell, as theorems: for every time value of the three kinds Context.ValidateTime (model in CE/Rules/Machine.lean, run in lock step with the real validator) accepts exactly what the independent grammar-side definition in CE/Rules/Spec.lean calls spellable (time_accepted_iff_spellable: field ranges, UTC offsets, latitude/longitude, area/location names = TZ_AREALOC via area_accepted_iff_spellable over all byte strings); the same for single-line comments; strings survive the escaping layer (C02). "
+              "Harness: CBE documents accepted by the real decoder+rules - encoder output of generated streams and 1-2 random byte substitutions of them that are still accepted (media types, area/location names, time fields and identifiers no encoder would write) - are converted CBE -> CTE -> CBE through the real codecs with rules; accepted CTE texts without custom text (encoder output and lists of generated literal spellings) are converted to CBE; at every stage the Lean canonText equality decides 'same data' (comments dropped towards CBE)",
+        note="partial: the conversion chains are decided by the oracle; the equivalence validator = grammar for media types and multi-line comments is exercised (both definitions run on every C10 case), not yet a theorem. Known finding: a big binary float that is not a float64 value cannot be carried by CBE exactly (C01 bigfloat-inexact). Defects found by this check and repaired: remote references with invalid UTF-8 (ab826f1), unspellable media types / times / area-location names (a4d8583)",
+        level="proof", n_quick=9000, n_thorough=450000, shards=16,
+        lean_modules=["CE.Props.C03", "CE.Props.C02", "CE.Gen.Check"],
+        rule="case i mod 3: 0 = CBE encoder output, 1 = mutated CBE document still accepted by decoder+rules, 2 = accepted CTE text (half generated documents, half lists of literal spellings); distinct by document bytes",
+        trusted_base=COMMON_TB,
+    ),
     # NEW-ENTRIES-ABOVE
 }
 
